@@ -620,14 +620,40 @@ class Sem:
             h2 = self.should_inline(n, frame)
             if h2 is not None and h2["body"].get("ty", "bool") in ("bool",):
                 f2 = self._enter(h2, n, frame)
-                body = h2["body"]
-                if not body.get("stmts") or all(s.get("k") == "SLet" for s in body.get("stmts", [])):
-                    if body.get("expr") is not None:
-                        return self.formula(body["expr"], f2, depth + 1)
+                f = self.returns_true(h2["body"], f2, depth + 1)
+                if f is not None:
+                    return f
             return F_atom(Atom("call", node=n, frame=frame))
         if k == "Block" and n.get("expr") is not None and all(s.get("k") == "SLet" for s in n.get("stmts", [])):
             return self.formula(n["expr"], frame, depth + 1)
         return F_atom(Atom("opaque", node=n, frame=frame))
+
+    def returns_true(self, body, frame, depth=0):
+        """formula under which a bool-valued block evaluates (or returns) true: handles `let`s, early
+        `if c { return <bool>; }` exits and the tail expression; None when the shape is not understood"""
+        b = strip(body)
+        if b.get("k") != "Block":
+            return self.formula(b, frame, depth)
+        acc = []
+        outs = []
+        for st in b.get("stmts", []):
+            if st.get("k") == "SLet":
+                continue
+            e = strip(st.get("e", {}))
+            if e.get("k") == "If" and "else" not in e and diverges(e["then"]):
+                rets = [r for r in exprs(e["then"], "Ret", into_closures=False)]
+                if len(rets) != 1 or "e" not in rets[0]:
+                    return None
+                c = self.formula(e["cond"], frame, depth + 1)
+                outs.append(f_and(acc + [c, self.formula(rets[0]["e"], frame, depth + 1)]))
+                acc = acc + [F_not(c)]
+                continue
+            if list(exprs(e, "Ret", into_closures=False)):
+                return None
+        if b.get("expr") is None:
+            return None
+        outs.append(f_and(acc + [self.formula(b["expr"], frame, depth + 1)]))
+        return f_or(outs)
 
     def variant_repr(self, n, frame):
         """the variant value an expression denotes, also through a local zero-argument function returning one"""
@@ -749,9 +775,11 @@ class Sem:
             return ("true",)
         k = e.get("k")
         if k == "If":
-            c = self.formula(e["cond"], frame)
             t = self.survive(e["then"], frame, depth + 1)
             f = self.survive(e["else"], frame, depth + 1) if "else" in e else ("true",)
+            if t == ("true",) and f == ("true",):
+                return ("true",)
+            c = self.formula(e["cond"], frame)
             return f_or([f_and([c, t]), f_and([F_not(c), f])])
         if k == "Match" and e.get("src") == "ForLoopDesugar":
             sc = strip(e["scrut"])
@@ -770,6 +798,8 @@ class Sem:
                     return F_atom(Atom("forall", node=e, l=Val(peel(sc["args"][0]), frame), r=fb, scruts=[body["pat"]], frame=frame))
             return ("true",)
         if k == "Match" and not is_try(e):
+            if all(self.survive(a["body"], frame, depth + 1) == ("true",) for a in e["arms"]):
+                return ("true",)
             parts = []
             prev = []
             for a in e["arms"]:
@@ -1336,3 +1366,40 @@ def whole_collection_checks(S, pc):
                     b, _, _, ms = provenance(S, n["recv"], a.frame)
                     out.append((b, ms, ("closure", n["args"][0], n["m"]), a.frame))
     return out
+
+
+def passes_through(S, node, frame, target, limit=40):
+    """does the value derive from the expression node `target` (a call, usually)? follows the same steps as provenance"""
+    while limit > 0:
+        limit -= 1
+        n = peel(node)
+        if n is target:
+            return True
+        k = n.get("k")
+        if k == "MethodCall":
+            node = n["recv"]
+            continue
+        if k == "Call" and n.get("args"):
+            node = n["args"][0]
+            continue
+        if k in ("Field", "Index", "Cast") or (k == "Unary" and n.get("op") == "Deref"):
+            node = n["e"]
+            continue
+        b = S.lookup(n, frame)
+        if b is None or b.expr is None:
+            return False
+        if b.kind == "loopvar":
+            e = peel(b.expr)
+            if e.get("k") == "Call" and e.get("args"):
+                node, frame = e["args"][0], b.frame
+                continue
+        node, frame = b.expr, b.frame
+    return False
+
+
+def param_index(S, node, frame):
+    """index of the root function parameter the value is rooted in (None if it is not rooted in a parameter)"""
+    b = provenance(S, node, frame)[0]
+    if b is not None and b.kind == "param" and b.frame is S.root:
+        return b.index
+    return None
